@@ -98,8 +98,14 @@ func Changes(cmd CommandRunner, baseBranch string, filter PathFilter) ([]*FileCh
 		slog.Debug("Git file change", slog.String("change", parts[0]), slog.String("path", dstPath), slog.String("commit", commit))
 
 		if !filter.IsPathAllowed(dstPath) {
-			slog.Debug("Skipping file due to include/exclude rules", slog.String("path", dstPath))
-			continue
+			if status != FileRenamed || !filter.IsPathAllowed(srcPath) {
+				slog.Debug("Skipping file due to include/exclude rules", slog.String("path", dstPath))
+				continue
+			}
+			// File was moved to a path we don't check, so from our point of view it's gone.
+			slog.Debug("File was moved to an excluded path", slog.String("src", srcPath), slog.String("dst", dstPath))
+			status = FileDeleted
+			dstPath = srcPath
 		}
 
 		// This should never really happen since git doesn't track directories, only files.
